@@ -1,11 +1,12 @@
 (* extraction of the executable C10 model. Z / positive are mapped to Zarith big integers (ExtrOcamlZBigInt):
    the exact moments of a 60-sample column are rationals with numerators of several hundred bits. *)
 From Coq Require Import List ZArith QArith Extraction ExtrOcamlBasic ExtrOcamlZBigInt.
-From LN Require Import C10_Defs C10_Ext_Defs.
+From LN Require Import C10_Defs C10_Ext_Defs C10_TreeFit_Defs.
 Extraction Language OCaml.
 Extraction "extracted/c10_model.ml" qlt qsum clamp best_of stump_cands stump_fit hinge_cands hinge_fit affine_cands affine_fit
   dense_cands dense_fit kbest_cands kbest_fit kbest_rss_seq fit_chunked rss_of stump_pred hinge_pred affine_pred
   group incr predict zeros scale try_merge merge predict_all tree_of_stump find keys_of
   kbest_sorted kbest_hashes kbest_tables kbest_pred ksplit_trials ksplit_rss_seq ksplit_fit ksplit_pred c_dist c_mean c_rss closest cpairs
   tree_wf tree_bfs bfs_done assigned walk_from tree_group side_of
+  tree_fit stump_node stump_best stump_xcands tcol child_ids tree_err tree_rss leaf_rss_sum reaches fit_fuel
   Qred Qplus Qminus Qmult Qdiv Qopp Qle_bool Qeq_bool inject_Z.
